@@ -12,7 +12,8 @@ CHECKS = {
     'C15': ("exhaustive enumeration of registration orders + Hypothesis interleavings vs a "
             "reference model of the documented lookup rule",
             "Every ordered subset of the four pattern kinds x every spec x both defaults is "
-            "enumerated (finite domain, complete), every built-in CostSpec is re-registered in "
+            "enumerated (finite domain, complete), once with all registrations first and once "
+            "with a lookup after every registration (every prefix), every built-in CostSpec is re-registered in "
             "every order, and Hypothesis interleaves registrations for several layer types; the "
             "oracle is an independent reference model of the README rule.",
             "Trusts the harness' reference model of the documented rule; each pattern registered "
@@ -81,7 +82,10 @@ CHECKS = {
             "only by summary() and the NetSpec (0-bit channels dead, propagated through "
             "add/flatten/depthwise), registered mpic/ne16 functions on exact per-precision specs, "
             "and a probing spec asserting in/out feature counts under the PyTorch names per layer "
-            "type. One open known finding (0-bit double discount) is classified narrowly and counted.",
+            "type. Coefficients of any sign and magnitude (x1/x4/x30), written with copy_ or "
+            "through .data; on half of the models another assignment is evaluated first and/or "
+            "export() is called before the cost is read; hand-over mode drawn. One open known "
+            "finding (0-bit double discount) is classified narrowly and counted.",
             "mpic/ne16 references re-use the registered hardware formula (C16 checks the formula); "
             "tolerance 1e-4 relative.",
             "DESIGN.md 4/C05"),
@@ -136,14 +140,18 @@ CHECKS = {
             "(channels, kernel, output rows/cols, weight/activation bits), depthwise == generic per "
             "group for the hardware-independent metrics, the seven rounding helpers vs Python "
             "integer arithmetic on 1..300 (thorough 1..1200) and fractional brackets with "
-            "gradient pass-through, and a table of unsupported precisions/kinds that must raise.",
+            "gradient pass-through, a table of unsupported precisions/kinds that must raise, and "
+            "vars() of real un-converted nn layers (plain-number channel counts, as PIT/SuperNet "
+            "show them for layers outside the search) priced like the tensor description.",
             "Pattern held fixed per sweep (a 1->1 conv belongs to the depthwise pattern); relative "
             "tolerance 1e-6 on 'does not decrease'.",
             "DESIGN.md 4/C16"),
     'C19': ("Hypothesis-generated stub/real models and schedule positions + exhaustive epoch grid; "
             "float64 reference formula, zero-iff, growth and gradient oracles",
             "Generated-input search on stub DNAS objects with controllable named costs (above / at / "
-            "below target, given or derived strengths) and on real PIT models with drawn masks; "
+            "below target, given or derived strengths) and on real PIT models with drawn masks "
+            "(full_cost on/off, layers excluded from the search, target often exactly the cost "
+            "read once beforehand); "
             "the (n_epochs, epoch) grid for n_epochs <= 50 is enumerated completely. Oracles: "
             "closed-form reference in float64, penalty == 0 iff all constraints hold, strict "
             "growth under a bumped excess, gradient == effective strength, effective strength "
@@ -175,7 +183,9 @@ CHECKS = {
             "step; discrete cost: step across the binarisation threshold vs straight-through "
             "gradient), bit-equal cost after perturbing all weights/BN statistics and changing the "
             "input, PIT cost(p) <= cost(q) for |p| <= |q| component-wise, open masks == original "
-            "model. Two open known findings (float-input MPS layers, ODiMO cost) are classified "
+            "model, and the costs read with every mask open come back bit-identically when the "
+            "masks are opened again after the history of the case (incl. re-assigning the "
+            "specification on partly closed masks). Two open known findings (float-input MPS layers, ODiMO cost) are classified "
             "narrowly.",
             "Probes skip |p| < 1e-3; Gumbel off; ODiMO clauses beyond 'can be evaluated' are not "
             "exercised while its cost raises (known finding).",
@@ -209,7 +219,9 @@ CHECKS = {
     'C17': ("round-trip testing over Hypothesis-generated training histories: state_dict -> "
             "torch.save/load -> fresh wrapper -> strict load -> observational equality",
             "Generated models of the three methods with histories of optimizer steps (SGD/Adam on "
-            "all trainable parameters), option changes and mode switches; the checkpoint is loaded "
+            "all trainable parameters), option changes (temperature, hard, gumbel, "
+            "disable_sampling, discrete_cost), training phases and mode switches; observation "
+            "passes with autograd on or under no_grad, in either order; the checkpoint is loaded "
             "(strict) into a wrapper freshly built from the pristine seed with the same constructor "
             "arguments and only the Python-level options re-applied; training-mode and eval-mode "
             "outputs, all cost values, summary and the exported network (structure + output, or the "
